@@ -429,6 +429,14 @@ def prove_zero(expr, assumptions_subs=None, budget=60, numeric_points=None, nume
     import mpmath
     syms = sorted(e.free_symbols, key=str)
     pts = numeric_points or default_points(syms)
+    if numeric_points is None and e.has(sp.Max, sp.Min, sp.Piecewise, sp.Heaviside, sp.sign, sp.floor, sp.ceiling):
+        # clamps / case distinctions hidden in the term: also probe very small and very large magnitudes (each symbol separately and all together)
+        tiny, huge = sp.Rational(1, 10 ** 24), sp.Integer(10 ** 24)
+        base = pts[0]
+        for val in (tiny, huge):
+            pts = pts + [{s_: val * base[s_] for s_ in syms}]
+            for s_ in syms[:12]:
+                pts = pts + [{**base, s_: val * base[s_]}]
     terms = list(sp.Add.make_args(e))
     try:
         fn = sp.lambdify(syms, [e] + terms, "mpmath")
